@@ -5,6 +5,7 @@ CONSTANTS
   Conns = {1, 2, 3, 4, 5, 6, 7, 8, 9, 10, 11, 12, 13, 14, 15, 16}
   Closers = {1, 2, 3}
   MaxCloses = 0
+  MaxTotal = 0
   MaxErrs = 0
   Spurious = FALSE
 INVARIANTS Limit OneSlotEach ClosedMeansError DrainedNeverReturned
